@@ -218,7 +218,7 @@ static Cls classify(const Spec& s) {
   if ((a.uses & U_M) && a.int_target && !c.prec) {
     bool scaled = !(s.api == A_INFLATE && s.aux == 1);  // InflatePaths with delta == 0 returns its input without scaling anything
     if (scaled) {
-      double sc = a.sk == SK_EXPLICIT ? ((s.dir % 4) < 2 ? s.sx : s.sy) : scale_of(a.sk, s.p);
+      double sc = a.sk == SK_EXPLICIT ? ((s.dir >= 8 ? s.dir < 10 : (s.dir % 4) < 2) ? s.sx : s.sy) : scale_of(a.sk, s.p);
       int rc = range_class(s.m, sc);
       bool rect = is_rect_api(s.api) && s.slot == 1;
       if (rc == 2) (rect ? c.rect_range : c.range) = true;
@@ -232,6 +232,8 @@ static Cls classify(const Spec& s) {
 static C2::PathD triD(int dir, double m) {
   C2::PathD t{C2::PointD(0.0, 0.0), C2::PointD(10.0, 0.0), C2::PointD(0.0, 10.0)};
   // dir 4..7: the oversized coordinate sits in the very FIRST vertex of the path (+x, -x, +y, -y)
+  // dir 8..11: a FLAT path (all vertices on one horizontal / vertical line: bounds of zero area) carrying the oversized coordinate
+  if (dir >= 8) { bool horiz = dir < 10; double v = (dir % 2) ? -m : m; return horiz ? C2::PathD{C2::PointD(0.0, 0.0), C2::PointD(v, 0.0), C2::PointD(5.0, 0.0)} : C2::PathD{C2::PointD(0.0, 0.0), C2::PointD(0.0, v), C2::PointD(0.0, 5.0)}; }
   switch (dir) { case 0: t[1].x = m; break; case 1: t[1].x = -m; break; case 2: t[2].y = m; break; case 3: t[2].y = -m; break;
                  case 4: t[0].x = m; break; case 5: t[0].x = -m; break; case 6: t[0].y = m; break; default: t[0].y = -m; }
   return t;
@@ -239,6 +241,7 @@ static C2::PathD triD(int dir, double m) {
 static C2::Path64 tri64(int dir, double m) {
   int64_t v = (int64_t)m;
   C2::Path64 t{C2::Point64((int64_t)0, (int64_t)0), C2::Point64((int64_t)10, (int64_t)0), C2::Point64((int64_t)0, (int64_t)10)};
+  if (dir >= 8) { bool horiz = dir < 10; int64_t w = (dir % 2) ? -v : v; return horiz ? C2::Path64{C2::Point64((int64_t)0, (int64_t)0), C2::Point64(w, (int64_t)0), C2::Point64((int64_t)5, (int64_t)0)} : C2::Path64{C2::Point64((int64_t)0, (int64_t)0), C2::Point64((int64_t)0, w), C2::Point64((int64_t)0, (int64_t)5)}; }
   switch (dir) { case 0: t[1].x = v; break; case 1: t[1].x = -v; break; case 2: t[2].y = v; break; case 3: t[2].y = -v; break;
                  case 4: t[0].x = v; break; case 5: t[0].x = -v; break; case 6: t[0].y = v; break; default: t[0].y = -v; }
   return t;
@@ -708,12 +711,12 @@ int main(int argc, char** argv) {
           for (int ct = ct0; ct <= ct1; ++ct)
             for (int fr = fr0; fr <= fr1; ++fr)
               for (double m : mags(ai.sk, p))
-                for (int dir = 0; dir < 8; ++dir) {
+                for (int dir = 0; dir < 12; ++dir) {
                   Spec s; s.api = api; s.p = p; s.slot = slot; s.aux = aux; s.ct = ct; s.fr = fr; s.m = m; s.dir = dir;
                   emit(s);
                 }
   }
-  if (!stop) rep.bounds_completed.push_back("A: C++ precision entry points x precision -12..12 x magnitudes x 8 positions/directions x argument slots x options");
+  if (!stop) rep.bounds_completed.push_back("A: C++ precision entry points x precision -12..12 x magnitudes x 12 positions/directions/shapes x argument slots x options");
 
   // ---- B: ScalePath / ScalePaths
   {
@@ -727,7 +730,7 @@ int main(int argc, char** argv) {
             if (aux == 1 && ix != iy) continue;  // single-scale overload
             for (double m : mm) {
               if (int_src && m >= 9223372036854775808.0) continue;  // not an int64 value
-              for (int dir = 0; dir < 8; ++dir) {
+              for (int dir = 0; dir < 12; ++dir) {
                 Spec s; s.api = api; s.aux = aux; s.sx = SC[ix]; s.sy = SC[iy]; s.m = m; s.dir = dir;
                 emit(s);
               }
@@ -758,9 +761,9 @@ int main(int argc, char** argv) {
     for (int p = -12; p <= 12; ++p)
       for (int slot = 0; slot < nslot; ++slot)
         for (double m : mags(ai.sk, p))
-          for (int dir = 0; dir < 8; ++dir) { Spec s; s.api = api; s.p = p; s.slot = slot; s.m = m; s.dir = dir; s.ct = 2; s.fr = 1; emit(s); }
+          for (int dir = 0; dir < 12; ++dir) { Spec s; s.api = api; s.p = p; s.slot = slot; s.m = m; s.dir = dir; s.ct = 2; s.fr = 1; emit(s); }
   }
-  if (!stop) rep.bounds_completed.push_back("E: export D functions x precision -12..12 x magnitudes x 8 positions/directions x argument slots");
+  if (!stop) rep.bounds_completed.push_back("E: export D functions x precision -12..12 x magnitudes x 12 positions/directions/shapes x argument slots");
 
   // ---- counters
   for (int i = 0; i < API_COUNT; ++i) {
